@@ -346,3 +346,82 @@ Example C13_example_reachable :
   | None => False
   end.
 Proof. vm_compute. repeat split; reflexivity. Qed.
+
+(* ======================================================================== *)
+(* SECOND AUDIT ADDENDUM: "the mutable references it returns never alias one
+   another" on every REACHABLE state, for EVERY environment E (== may lie or
+   panic, Drop may panic, retain closures arbitrary): wf is the state reached from
+   Map::new() of ANY capacity by ANY history (dop: the 13 operations; dop2: plus
+   drain / iteration / entry / extend; panics of user code and of the container
+   are part of the history).  WF of wf comes from MoreOwned.mrun_any_env_safe /
+   mrun2_any_env_safe (no Lawful).  The postcondition is that of
+   C13_disjoint_safe, conjunct by conjunct; the unchecked variant needs no
+   contract for this statement (it holds for every ks).                        *)
+(* ======================================================================== *)
+Theorem C13_disjoint_safe_reachable :
+  forall (K V Q T : Type) (E : env K V Q T) (debug : bool)
+         (n : nat) (ops : list (@dop K V Q)) (s : T) (lg : list event) (ks : list Q),
+  exists wf : world K V T,
+    mfinal E debug ops {| cb := s; log := lg; self := new_map n |} = Some wf /\
+    wp (get_disjoint_mut E ks)
+       (fun (r : list (option nat)) (w' : world K V T) =>
+          self w' = self wf /\
+          length r = length ks /\
+          (forall j i : nat, nth_error r j = Some (Some i) -> i < len (self wf)) /\
+          (forall j1 j2 i : nat,
+              nth_error r j1 = Some (Some i) -> nth_error r j2 = Some (Some i) -> j1 = j2))
+       (fun w' : world K V T => self w' = self wf) wf /\
+    wp (get_disjoint_unchecked_mut E ks)
+       (fun (r : list (option nat)) (w' : world K V T) =>
+          self w' = self wf /\
+          length r = length ks /\
+          (forall j i : nat, nth_error r j = Some (Some i) -> i < len (self wf)) /\
+          (forall j1 j2 i : nat,
+              nth_error r j1 = Some (Some i) -> nth_error r j2 = Some (Some i) -> j1 = j2))
+       (fun w' : world K V T => self w' = self wf) wf.
+Proof. exact (@disjoint_safe_reachable). Qed.
+Print Assumptions C13_disjoint_safe_reachable.
+
+Theorem C13_disjoint_safe_reachable2 :
+  forall (K V Q T : Type) (E : env K V Q T) (debug : bool)
+         (n : nat) (ops : list (@dop2 K V Q)) (s : T) (lg : list event) (ks : list Q),
+  exists wf : world K V T,
+    mfinal2 E debug ops {| cb := s; log := lg; self := new_map n |} = Some wf /\
+    wp (get_disjoint_mut E ks)
+       (fun (r : list (option nat)) (w' : world K V T) =>
+          self w' = self wf /\
+          length r = length ks /\
+          (forall j i : nat, nth_error r j = Some (Some i) -> i < len (self wf)) /\
+          (forall j1 j2 i : nat,
+              nth_error r j1 = Some (Some i) -> nth_error r j2 = Some (Some i) -> j1 = j2))
+       (fun w' : world K V T => self w' = self wf) wf /\
+    wp (get_disjoint_unchecked_mut E ks)
+       (fun (r : list (option nat)) (w' : world K V T) =>
+          self w' = self wf /\
+          length r = length ks /\
+          (forall j i : nat, nth_error r j = Some (Some i) -> i < len (self wf)) /\
+          (forall j1 j2 i : nat,
+              nth_error r j1 = Some (Some i) -> nth_error r j2 = Some (Some i) -> j1 = j2))
+       (fun w' : world K V T => self w' = self wf) wf.
+Proof. exact (@disjoint_safe_reachable2). Qed.
+Print Assumptions C13_disjoint_safe_reachable2.
+
+(* with an ADVERSARIAL script (== lies on a pseudo-random quarter of the calls):
+   a state reached by inserts and a removal, then a request with a repeated key -
+   whatever the lying == makes of it, no slot is handed out twice *)
+Example C13_example_safe_reachable_adversarial :
+  let E := env_map {| sc_adv := true; sc_seed := 7; sc_fk := 0; sc_fa := 0 |} in
+  match mfinal E false
+          [DInsert (k_ 1 5) (v_ 2 7); DInsert (k_ 3 6) (v_ 4 8); DInsert (k_ 5 5) (v_ 6 9);
+           DInsert (k_ 7 7) (v_ 8 1); DRemove (QCls 6)]
+          {| cb := cs0; log := []; self := new_map 4 |} with
+  | Some wf =>
+      match get_disjoint_unchecked_mut E [QCls 5; QCls 7; QCls 5; QCls 6] wf with
+      | Ok r w' => self w' = self wf /\ length r = 4 /\
+                   NoDup (flat_map (fun o : option nat => match o with Some i => [i] | None => [] end) r)
+      | Panic w' => self w' = self wf
+      | UB => False
+      end
+  | None => False
+  end.
+Proof. vm_compute. first [ reflexivity | repeat split; try reflexivity; repeat constructor; cbn; intuition discriminate ]. Qed.
